@@ -14,6 +14,8 @@ use crate::prng::Rng;
 use crate::report::{Partial, Violation, MAX_VIOLATIONS};
 
 pub const PAGE: usize = 4096;
+/// Violations written out per job (the report keeps at most `MAX_VIOLATIONS` overall).
+pub const MAX_PER_JOB: usize = 3;
 
 // ------------------------------------------------------------------------------------------
 // Guard-page arena
@@ -469,7 +471,9 @@ impl Ctx {
         }
         if let Some(fail) = v {
             self.p.bump("violations_found", 1);
-            if self.p.violations.len() < MAX_VIOLATIONS {
+            let r = case.routine();
+            self.p.bump(&format!("violating:{}", r.split("::").next().unwrap_or(&r)), 1);
+            if self.p.violations.len() < MAX_PER_JOB {
                 let (min, fail, steps) = shrink_case(case, fail, 3000, &mut |c| check(c));
                 let mut note = fail.note.clone();
                 if steps > 0 {
